@@ -23,3 +23,19 @@ func verifLoad(c *Config) error {
 	_, err = LoadConfig(f.Name())
 	return err
 }
+
+// VerifLoadConfig: the configuration value LoadConfig returns for a file that denotes c (written out as real YAML).
+func VerifLoadConfig(c *Config) (*Config, error) {
+	data, err := yaml.Marshal(c)
+	if err != nil {
+		panic(err)
+	}
+	f, err := os.CreateTemp("", "verif-config-*.yaml")
+	if err != nil {
+		panic(err)
+	}
+	defer os.Remove(f.Name())
+	f.Write(data)
+	f.Close()
+	return LoadConfig(f.Name())
+}
